@@ -1,15 +1,16 @@
 """C09 - particles stay in the water inside the domain; the dead stay dead."""
 from contracts import roms_grid as G
+from contracts import state as S
 from contracts import tracker as T
 
-UNITS = [G.InGrid(), G.AtSea(), G.OnLand(), T.Update(""), T.Update("EF"), T.Update("RK2"), T.Update("RK4")]
+UNITS = [G.InGrid(), G.AtSea(), G.OnLand(), T.Update(""), T.Update("EF"), T.Update("RK2"), T.Update("RK4"), S.Append("arrays"), S.Append("scalars"), S.Append("broadcast")]
 LEMMAS = []
 NATIVE = [dict(name="run-time contract of the tracking step on random coastlines (real Tracker, real ROMS Grid)", harness="tracker_step_bounded", kind="bounded"),
           dict(name="encoder validation: the interpreter in concrete mode vs the real numpy/numba functions", harness="validate_encoder", kind="validation", prepare="pyvc.validate:run_validation")]
 LEVEL = "proof"
 LEVEL_TEXT = ("Deductive proof per particle, for every mask, velocity (uninterpreted, any magnitude), displacement incl. diffusion, and all three schemes: Tracker.update equals the "
               "specified step (kill when the move leaves the valid region, keep position when inactive or moving onto land), the state invariant 'every particle in the valid region "
-              "and in a sea cell' is preserved, alive' => alive, inactive particles keep their position, and every nearest-cell lookup is in bounds. Absence from later records follows from C05/C06.")
+              "and in a sea cell' is preserved, alive' => alive, inactive particles keep their position, and every nearest-cell lookup is in bounds. A dead particle cannot reappear under its identifier: State.append hands out exactly npid..npid+m-1 and leaves the old prefix untouched (the append units of C05 are units of this check too); absence from later records then follows from C05/C06.")
 LEVEL_NOTE = "positions are reals: NaN/inf are outside the model and only covered by the bounded run (finite-position clause); user IBMs may move particles: outside this contract"
 TECHNIQUE = "contract-based deductive verification (AST->z3 VCs, per-particle generic index, modular Grid contracts)"
 EXPLANATION = "Per-particle proof of the move/kill/cancel logic and of invariant preservation; a bounded native run covers float corner cases."
